@@ -649,6 +649,59 @@ def observe_output(out, want_geom, also=()):
     return 9, [], False
 
 
+STRICT_DT = ("int64", "int32", "bool", "float32", "float64", "ro", "strided", "negstride", "forder")
+LENIENT_DT = ("object", "list", "tuple", "scalar0d")      # outside the documented ndarray/CUQIarray contract: may be refused
+
+
+def _out_dtype(out):
+    from cuqi.samples import Samples
+    a = out.samples if isinstance(out, Samples) else out
+    return str(getattr(a, "dtype", type(a).__name__))
+
+
+def cast_input(cuqi, x, dt):
+    """the same numbers in another dtype / memory layout / container (dt: see STRICT_DT, LENIENT_DT)"""
+    from cuqi.array import CUQIarray
+    from cuqi.samples import Samples
+    if not dt or dt == "float64":
+        return x
+
+    def conv(a):
+        a = np.asarray(a, dtype=float)
+        if dt in ("int64", "int32", "bool", "float32"):
+            b = a.astype(dt)
+            assert np.array_equal(b.astype(float), a), "value not representable in " + dt
+            return b
+        if dt == "object":
+            return np.array([Fraction(float(v)) for v in a.ravel()], dtype=object).reshape(a.shape)
+        if dt == "ro":
+            b = a.copy()
+            b.flags.writeable = False
+            return b
+        if dt == "strided":          # every second element of a larger buffer (last axis)
+            big = np.full(a.shape[:-1] + (2 * a.shape[-1],), 99.0)
+            big[..., ::2] = a
+            return big[..., ::2]
+        if dt == "negstride":
+            return a[..., ::-1].copy()[..., ::-1]
+        if dt == "forder":
+            return np.asfortranarray(a)
+        raise ValueError(dt)
+
+    if isinstance(x, Samples):
+        return Samples(conv(x.samples), geometry=x._geometry, is_par=x.is_par, is_vec=x.is_vec)
+    if isinstance(x, CUQIarray):
+        return type(x)(conv(x), is_par=x.is_par, geometry=x.geometry)
+    if dt == "list":
+        return np.asarray(x).tolist()
+    if dt == "tuple":
+        return tuple(np.asarray(x).tolist())
+    if dt == "scalar0d":
+        assert np.asarray(x).size == 1
+        return np.array(float(np.asarray(x).ravel()[0]))
+    return conv(x)
+
+
 def mk_input(cuqi, form, vals, gs, gobj_same, model_geom):
     """form: par | fun | arrpar | arrfun (+ '=copy' for an equal copy of the geometry) | samples | samplesfun"""
     from cuqi.array import CUQIarray
@@ -706,7 +759,7 @@ def coq_vec_input(form, vals, gs_coq, ctor_vec, ctor_arr, ctor_samples):
 
 def _snapshot(x):
     from cuqi.samples import Samples
-    return np.array(x.samples if isinstance(x, Samples) else x, dtype=float, copy=True)
+    return np.array(x.samples if isinstance(x, Samples) else x, dtype=float, copy=True)     # (lists, Fractions -> float)
 
 
 def _replay_history(cuqi, model, meta, dgs, rgs):
@@ -733,12 +786,12 @@ def run_forward_case(cuqi, meta):
     vals = [ufs(c) for c in meta["vals"]]
     form, flag = meta["form"], meta["flag"]
     _replay_history(cuqi, model, meta, dgs, rgs)
-    x = mk_input(cuqi, form, vals, dgs, geom_object_for_copy(cuqi, dgs), model.domain_geometry)
+    x = cast_input(cuqi, mk_input(cuqi, form, vals, dgs, geom_object_for_copy(cuqi, dgs), model.domain_geometry), meta.get("dt"))
     before = _snapshot(x)
     try:
         out = model.forward(x, is_par=flag) if not meta.get("call") else model(x, is_par=flag)
         kind, cols, ok = observe_output(out, model.range_geometry)
-        obs = ("val", kind, cols, ok)
+        obs = ("val", kind, cols, ok, _out_dtype(out))
     except Exception as e:
         obs = ("err", exc_class(e), repr(e)[:200])
     if not np.array_equal(before, _snapshot(x)):
@@ -778,6 +831,8 @@ def compare(obs, exp):
         return "values %s, expected (parameters of the range geometry) %s" % (_show(obs), _show(exp))
     if not obs[3]:
         return "output is not wrapped with the model's own geometry / is_par=True"
+    if len(obs) > 4 and not obs[4].startswith("float") and obs[4] != "object":
+        return "output dtype %s: the model's outputs are real numbers, the output must be floating" % obs[4]
     return None
 
 
@@ -803,11 +858,17 @@ def forward_case(cuqi, meta, q):
     okflag = obs[3] if obs[0] == "val" and obs[1] not in (5, 6, 7, 8) else True      # (a subclass instance's label is part of its kind)
     expr = "check_forward %s %s %s %s %s %s %s %s" % (coq_quirks(q), fwd, rgs.coq(), dgs.coq(), xin,
                                                       cbool(meta["flag"]), coq_obs(obs), cbool(okflag))
+    if obs[0] == "val" and len(obs) > 4 and not (obs[4].startswith("float") or obs[4] == "object"):
+        expr += " && false"        # DECISION: the output dtype is floating
     fail = compare(obs, exp)
     sig = forward_signature(meta, obs, exp, q) if fail else ""
     base = meta["form"].split("=")[0]
     trivial = base == "par" and dgs.kind in ("default1d", "cont1d", "discrete") and rgs.kind in ("default1d", "cont1d", "discrete")
-    cell = "fwd/%s/%s->%s/%s%s" % (meta["mk"], dgs.name(), rgs.name(), meta["form"], "" if meta["flag"] else "/flag=F")
+    cell = "fwd/%s/%s->%s/%s%s%s" % (meta["mk"], dgs.name(), rgs.name(), meta["form"], "" if meta["flag"] else "/flag=F",
+                                     "/dt=" + meta["dt"] if meta.get("dt") else "")
+    if meta.get("dt") in LENIENT_DT and obs[0] == "err" and obs[1] != "other:InputMutated":
+        # a container outside the documented ndarray/CUQIarray contract may be refused; if accepted it must be right
+        return Case(expr="true", meta=meta, cell=cell + "/refused", trivial=True, kind="DECISION")
     return Case(expr=expr, meta=meta, cell=cell, trivial=trivial, kind="EXACT", impl_fail=fail, signature=sig)
 
 
@@ -827,6 +888,7 @@ def run_gradient_case(cuqi, meta):
     dform, wform = meta["dform"], meta["wform"]
     direction = mk_ginput(cuqi, dform, d, rgs, geom_object_for_copy(cuqi, rgs), model.range_geometry)
     wrt = mk_ginput(cuqi, wform, w, dgs, geom_object_for_copy(cuqi, dgs), model.domain_geometry)
+    direction, wrt = cast_input(cuqi, direction, meta.get("ddt")), cast_input(cuqi, wrt, meta.get("wdt"))
     dpar = dform.split("=")[0] not in ("fun",) if "dpar" not in meta else meta["dpar"]
     wpar = wform.split("=")[0] not in ("fun",) if "wpar" not in meta else meta["wpar"]
     _replay_history(cuqi, model, meta, dgs, rgs)
@@ -835,7 +897,7 @@ def run_gradient_case(cuqi, meta):
         out = model.gradient(direction, wrt, is_direction_par=dpar, is_wrt_par=wpar)
         kind, cols, ok = observe_output(out, model.domain_geometry,
                                         also=[x.geometry for x in (wrt, direction) if hasattr(x, "geometry")])
-        obs = ("val", kind, cols, ok)
+        obs = ("val", kind, cols, ok, _out_dtype(out))
     except Exception as e:
         obs = ("err", exc_class(e), repr(e)[:200])
     if not (np.array_equal(before[0], _snapshot(direction)) and np.array_equal(before[1], _snapshot(wrt))):
@@ -893,6 +955,8 @@ def compare_gradient(obs, exp, refusal_ok):
         return "gradient %s differs from J^T d = %s (exact Jacobian of the parameter-to-output map)" % (_show(obs), _show(exp))
     if not obs[3]:
         return "gradient is a CUQIarray not labelled as parameters of the model's domain geometry"
+    if len(obs) > 4 and not obs[4].startswith("float") and obs[4] != "object":
+        return "gradient dtype %s: must be floating" % obs[4]
     return None
 
 
@@ -910,9 +974,14 @@ def gradient_case(cuqi, meta, q):
     if meta.get("refusal_only"):      # Samples flagged as function values: only "refused" is compared, not the exception class
         expr = "check_refused (gradient %s %s %s %s %s %s true true) %s" % (coq_quirks(q), gf, rgs.coq(), dgs.coq(), din, win,
                                                                             cbool(obs[0] == "err" and obs[1] != "other:InputMutated"))
+    if obs[0] == "val" and len(obs) > 4 and not (obs[4].startswith("float") or obs[4] == "object"):
+        expr += " && false"        # DECISION: the gradient's dtype is floating
     fail = compare_gradient(obs, exp, refusal_ok)
     sig = gradient_signature(meta, obs, exp, q) if fail else ""
-    cell = "grad/%s/%s->%s/d:%s,w:%s" % (meta["mk"], dgs.name(), rgs.name(), meta["dform"], meta["wform"])
+    if (meta.get("ddt") in LENIENT_DT or meta.get("wdt") in LENIENT_DT) and obs[0] == "err" and obs[1] != "other:InputMutated":
+        return Case(expr="true", meta=meta, cell="grad/%s/lenient-container/refused" % meta["mk"], trivial=True, kind="DECISION")
+    cell = "grad/%s/%s->%s/d:%s,w:%s%s" % (meta["mk"], dgs.name(), rgs.name(), meta["dform"], meta["wform"],
+                                           "/dt=%s,%s" % (meta.get("ddt"), meta.get("wdt")) if meta.get("ddt") or meta.get("wdt") else "")
     return Case(expr=expr, meta=meta, cell=cell, trivial=all(x == 0 for x in d), kind="DECISION" if obs[0] == "err" else "EXACT",
                 impl_fail=fail, signature=sig)
 
@@ -1410,6 +1479,71 @@ def run(ctx):
                             meta = dict(op="gradient", mk=mk, dg=dg.d, rg=rg.d, dform=dform, wform=wform, d=fs(dvec), w=fs(w_in), **mm)
                             meta.update(extra)
                             add(gradient_case, meta)
+
+    # ---- DTYPE / memory layout / container of every input form, always: integer-valued inputs, models with non-integer
+    #      outputs (entries /2, /4): values compared exactly with the dtype-agnostic model, output dtype must be floating
+    def frac_model(mk, nin, nout):
+        A = [[F(rng.choice([-3, -1, 1, 1, 3, 5]), rng.choice([2, 4, 1, 2])) for _ in range(nin)] for _ in range(nout)]
+        if mk in ("linmat", "linfun"):
+            cs_, b_ = [0, 1], [0] * nout
+        else:
+            cs_, b_ = rng.choice([[0, 1], [0, F(1, 2), 1], [1, 0, F(1, 4)]]), [F(rng.randint(-3, 3), 2) for _ in range(nout)]
+        return {"A": [[str(a) for a in row] for row in A], "cs": fs(cs_), "b": fs(b_)}
+
+    int_aff, int_iaff = [1, 2], [F(-1, 2), F(1, 2)]
+    dt_doms = [Geo(kind="cont1d", n=3), Geo(kind="default1d", n=3), Geo(kind="discrete", n=2), Geo(kind="mapped", n=3, cs=fs(int_aff), ics=fs(int_iaff)),
+               Geo(kind="step", nodes=4, steps=2, proj="max"), Geo(kind="image", r=2, c=2, order="F"), Geo(kind="cont2d", r=2, c=2),
+               Geo(kind="cont1d", n=1), Geo(kind="mapped", n=1, cs=fs(int_aff), ics=fs(int_iaff))]
+    dt_rngs = [Geo(kind="cont1d", n=2), Geo(kind="mapped", n=2, cs=fs(int_aff), ics=fs(int_iaff)), Geo(kind="discrete", n=3),
+               Geo(kind="step", nodes=2, steps=2, proj="mean"), Geo(kind="cont1d", n=1)]
+    for di, dg in enumerate(dt_doms):
+        for form in ["par", "fun", "arrpar", "arrfun=copy", "samples", "samplesfun", "subpar"]:
+            base = form.split("=")[0]
+            isfun = base in ("fun", "arrfun", "samplesfun")
+            dts = list(STRICT_DT) + (list(LENIENT_DT) if base in ("par", "fun") else [])
+            for ti, dt in enumerate(dts):
+                if dt == "bool" and isfun and dg.kind in ("mapped",):
+                    continue          # function values of 0/1 parameters are not 0/1 there
+                if dt == "scalar0d" and dg.nfun != 1:
+                    continue
+                if dt in ("list", "tuple") and dg.twod and isfun:
+                    continue
+                rg = dt_rngs[(di + ti) % len(dt_rngs)]
+                mk = ["jac", "linfun", "pde_gw", "dir", "linmat"][(di + ti + len(form)) % 5]
+                if not model_allowed(mk, dg, rg):
+                    mk = "jac"
+                mm = frac_model(mk, dg.nfun, rg.nfun)
+                if mk == "pde_gw":
+                    mm["pde_op"] = rand_unit_triangular(rng, rg.nfun)
+                cols = []
+                for _ in range(3 if base.startswith("samples") else 1):
+                    pcol = [F(rng.randint(0, 1)) for _ in range(dg.pdim)] if dt == "bool" else [F(rng.randint(-4, 6)) for _ in range(dg.pdim)]
+                    cols.append(dg.o_par2fun(pcol) if isfun else pcol)
+                add(forward_case, dict(op="forward", mk=mk, dg=dg.d, rg=rg.d, form=form, vals=[fs(c) for c in cols], flag=not isfun or base == "arrfun",
+                                       call=False, dt=dt, **mm))
+    for di, dg in enumerate([Geo(kind="cont1d", n=3), Geo(kind="mapped", n=3, cs=fs(int_aff), ics=fs(int_iaff), grad=True),
+                             Geo(kind="step", nodes=4, steps=2, proj="max", grad=True), Geo(kind="image", r=2, c=2, order="C"),
+                             Geo(kind="cont1d", n=1)]):
+        for fi, (dform, wform) in enumerate([("par", "par"), ("arrpar", "arrpar"), ("fun", "arrfun"), ("par", "fun")]):
+            for ti, dt in enumerate(list(STRICT_DT) + list(LENIENT_DT)):
+                for ddt, wdt in [(dt, None), (None, dt), (dt, dt)]:
+                    if dt in LENIENT_DT and ((ddt and dform != "par" and dform != "fun") or (wdt and wform not in ("par", "fun"))):
+                        continue
+                    if dt == "scalar0d" and dg.nfun != 1:
+                        continue
+                    if dt in ("list", "tuple") and dg.twod and wdt and wform == "fun":
+                        continue
+                    if dt == "bool" and wdt and wform in ("fun", "arrfun") and dg.kind == "mapped":
+                        continue
+                    rg = Geo(kind="cont1d", n=1) if dg.nfun == 1 else [Geo(kind="cont1d", n=2), Geo(kind="discrete", n=3)][(di + ti) % 2]
+                    mk = ["jac", "dir", "linfun", "pde_jw"][(di + fi + ti) % 4]
+                    mm = frac_model(mk, dg.nfun, rg.nfun)
+                    bw, bd = dt == "bool" and wdt, dt == "bool" and ddt
+                    pvec = [F(rng.randint(0, 1)) if bw else F(rng.randint(-3, 4)) for _ in range(dg.pdim)]
+                    dvec = [F(rng.randint(0, 1)) if bd else F(rng.randint(-3, 4)) for _ in range(rg.pdim)]
+                    w_in = dg.o_par2fun(pvec) if wform in ("fun", "arrfun") else pvec
+                    add(gradient_case, dict(op="gradient", mk=mk, dg=dg.d, rg=rg.d, dform=dform, wform=wform, d=fs(dvec), w=fs(w_in),
+                                            ddt=ddt, wdt=wdt, **mm))
 
     # ---- instances of a user subclass of CUQIarray as input, always
     aff_s, iaff_s = [1, 2], [F(-1, 2), F(1, 2)]
